@@ -177,7 +177,8 @@ def finish(ctx, mod, replaying=False, no_evidence=False):
             # The case alone does not show it.  The outcome may depend on what the process did before (state the code
             # under test keeps between calls); then a second complete exploration from a fresh process shows the same
             # signature again, and the violation is reported with a replay document that asks for the complete run.
-            again = whole_run_signatures(ctx, mod)
+            again = whole_run_signatures(ctx, mod) if not confirmed else set()
+            lost = []
             for v in unreproduced:
                 if v['sig'] in again:
                     v = dict(v, case=dict(kind='whole-run', tier=ctx.tier, seed=ctx.seed, signature=v['sig'], first_seen_in=v['case']),
@@ -186,9 +187,16 @@ def finish(ctx, mod, replaying=False, no_evidence=False):
                     if not any(c['sig'] == v['sig'] and c['case'].get('kind') == 'whole-run' for c in confirmed):
                         confirmed.append(v)
                 else:
-                    sys.stderr.write('HARNESS ERROR: violation %s did not reproduce, neither alone nor in a second complete '
-                                     'run: %s\n' % (v['sig'], json.dumps(v['case'], default=repr)[:2000]))
-                    return 2
+                    lost.append(v)
+            for v in lost:
+                # with other violations confirmed the run is decided (exit 1); an alarm that cannot be reproduced is never
+                # reported as a violation, and alone it makes the run a harness error
+                sys.stderr.write('%s: violation %s did not reproduce%s: %s\n' %
+                                 ('note' if confirmed else 'HARNESS ERROR', v['sig'],
+                                  '' if confirmed else ', neither alone nor in a second complete run',
+                                  json.dumps(v['case'], default=repr)[:2000]))
+            if lost and not confirmed:
+                return 2
     else:
         confirmed = new
 
